@@ -161,6 +161,13 @@ theorem lookup_inv {syms N} (entries : List Entry) (s : HState) (l : Look)
     · rw [(cached_frame _ _ _ _).1]; exact hC.1
     · rw [(cached_frame _ _ _ _).2.1]; exact hc.1
     · exact cached_NI _ _ _ _ (by simpa [exportStructName] using hn) h
+  | exportFunc pkg fn =>
+    simp only [lookup]
+    have hn := hN _ rfl
+    refine ⟨⟨?_, ?_⟩, ?_⟩
+    · rw [(cached_frame _ _ _ _).1]; exact hC.1
+    · rw [(cached_frame _ _ _ _).2.1]; exact hC.2
+    · exact cached_NI _ _ _ _ hn h
 
 /-! ### one step keeps the invariants -/
 
@@ -287,6 +294,9 @@ theorem step_inv {syms N} (entries : List Entry) (s : HState) (k : Nat) (st : St
     · split
       · exact SInv_setMk_same s id mk _ hg rfl h
       · exact SInv_armStub s id mk _ hg h
+  | origin hh =>
+    simp only [step]
+    exact SInv_withMk s hh _ h (fun _ _ _ => h)
   | cancel hh =>
     simp only [step]
     exact SInv_withMk s hh _ h (fun id mk _ => SInv_cancelMk s id h)
